@@ -25,6 +25,8 @@ func (s siteInfo) String() string {
 
 // xl translates the functions of one type-checked package.
 type xl struct {
+	// acceptedOut collects the size-dependent sites accepted without a hazard (may be nil)
+	acceptedOut *[]acceptedSite
 	// mayNil: may-return-nil summaries of the functions in scope (maynil.go), by FullName
 	mayNil map[string]map[int]bool
 	// ctorMaps: map-typed struct fields that every composite literal of their struct in the
@@ -70,6 +72,8 @@ type fn struct {
 	// may exit and every statement stays reachable in the skeleton
 	flowInsensitive bool
 	decl            *declInfo
+	body            *ast.BlockStmt
+	accepted        []acceptedSite
 }
 
 // declInfo: facts about one top-level function that its literals may rely on.
@@ -152,6 +156,10 @@ func (f *fn) newSite(n ast.Node, kind, desc string) int {
 // hz is a hazard at n unless the allow list covers (function, kind, desc).
 func (f *fn) hz(n ast.Node, kind, desc string) *Stmt {
 	if f.allow.covers(f.name, kind, desc) {
+		switch kind {
+		case "make", "index", "slice", "dstsize":
+			f.accepted = append(f.accepted, acceptedSite{Fn: f.name, Kind: kind + "(allow)", Expr: desc})
+		}
 		return skip()
 	}
 	return hazard(f.newSite(n, kind, desc))
@@ -647,6 +655,11 @@ func (f *fn) call(e *ast.CallExpr) *Stmt {
 		}
 		r = seq(r, f.eff(a))
 	}
+	if g := calleeOf(f.l.Info, e); g != nil && g.Pkg() != nil {
+		if hz := f.dstSize(e, g); hz != nil {
+			r = seq(r, hz)
+		}
+	}
 	if strings.HasPrefix(name, "Must") && len(name) > 4 && name[4] >= 'A' && name[4] <= 'Z' {
 		r = seq(r, f.hz(e, "must", f.str(e.Fun)))
 	}
@@ -659,10 +672,17 @@ func (f *fn) builtin(name string, e *ast.CallExpr) *Stmt {
 	case "panic":
 		return seq(r, f.hz(e, "panic", "panic(…)"))
 	case "make":
+		constant := true
 		for _, a := range e.Args[1:] {
 			if !f.nonNegative(a) {
 				return seq(r, f.hz(e, "make", f.str(e)))
 			}
+			if _, isC := f.intConst(a); !isC {
+				constant = false
+			}
+		}
+		if !constant {
+			f.accepted = append(f.accepted, acceptedSite{Fn: f.name, Kind: "make", Expr: f.str(e)})
 		}
 	}
 	return r
@@ -1513,6 +1533,7 @@ func (x *xl) translateFunc(name string, di *declInfo, ftype *ast.FuncType, recv 
 	for k := range di.madeMaps {
 		f.madeMaps[k] = true
 	}
+	f.body = body
 	f.flowInsensitive = unstructured(body)
 	f.collect(ftype, recv, body)
 	entry := skip()
@@ -1545,6 +1566,9 @@ func (x *xl) translateFunc(name string, di *declInfo, ftype *ast.FuncType, recv 
 	ptrParams(ftype.Params, kPtr)
 	ptrParams(ftype.Results, kNil)
 	s := seq(entry, f.stmts(body.List))
+	if x.acceptedOut != nil {
+		*x.acceptedOut = append(*x.acceptedOut, f.accepted...)
+	}
 	return simplify(s), len(f.vars)
 }
 
@@ -1767,4 +1791,68 @@ func ctorMapFields(l *loaded) map[*types.Var]bool {
 		}
 	}
 	return res
+}
+
+// dstSize: standard-library functions that index their destination up to a size derived from
+// the source and fault when it is shorter (base64 / hex Decode and Encode, binary.PutUintN /
+// UintN).  Accepted without a hazard only in the form
+//
+//	dst := make([]byte, enc.DecodedLen(len(src)))   // resp. EncodedLen
+//	… enc.Decode(dst, src)
+//
+// with dst a local assigned exactly once in the function and the same src expression.
+func (f *fn) dstSize(e *ast.CallExpr, g *types.Func) *Stmt {
+	pkg, name := g.Pkg().Path(), g.Name()
+	sizeFn := ""
+	switch {
+	case (pkg == "encoding/base64" || pkg == "encoding/hex" || pkg == "encoding/base32") && name == "Decode":
+		sizeFn = "DecodedLen"
+	case (pkg == "encoding/base64" || pkg == "encoding/hex" || pkg == "encoding/base32") && name == "Encode":
+		sizeFn = "EncodedLen"
+	case pkg == "encoding/binary" && (strings.HasPrefix(name, "PutUint") || strings.HasPrefix(name, "Uint")):
+		return f.hz(e, "dstsize", f.str(e))
+	default:
+		return nil
+	}
+	if len(e.Args) != 2 {
+		return nil
+	}
+	dst, src := f.varOf(e.Args[0]), f.str(e.Args[1])
+	if dst != nil && f.body != nil {
+		assigns, okInit := 0, false
+		ast.Inspect(f.body, func(n ast.Node) bool {
+			as, ok := n.(*ast.AssignStmt)
+			if !ok {
+				return true
+			}
+			for i, lh := range as.Lhs {
+				if f.varOf(lh) != dst {
+					continue
+				}
+				assigns++
+				if len(as.Lhs) == len(as.Rhs) {
+					if mk, ok := ast.Unparen(as.Rhs[i]).(*ast.CallExpr); ok && f.str(mk.Fun) == "make" && len(mk.Args) == 2 {
+						if sz, ok := ast.Unparen(mk.Args[1]).(*ast.CallExpr); ok && len(sz.Args) == 1 {
+							if sel, ok := sz.Fun.(*ast.SelectorExpr); ok && sel.Sel.Name == sizeFn && f.str(sz.Args[0]) == "len("+src+")" {
+								okInit = true
+							}
+						}
+					}
+				}
+			}
+			return true
+		})
+		if assigns == 1 && okInit {
+			f.accepted = append(f.accepted, acceptedSite{Fn: f.name, Kind: "dstsize", Expr: f.str(e)})
+			return nil
+		}
+	}
+	return f.hz(e, "dstsize", f.str(e))
+}
+
+// acceptedSite: a partial operation the translator (or the allow list) accepted although its
+// safety depends on a size / index expression.  The expressions are regenerated and pinned in
+// Props/C09.lean: editing one resurfaces the site for review.
+type acceptedSite struct {
+	Fn, Kind, Expr string
 }
